@@ -2,6 +2,13 @@ import IprModel.Seq
 /-! Laws of `ipr::Sequence<T>` and of its implementations (model: IprModel/Seq.lean). -/
 namespace Ipr.Seq
 
+instance {α : Type} [DecidableEq α] : DecidableEq (Res α) := fun a b =>
+  match a, b with
+  | .ok x, .ok y => if h : x = y then isTrue (by rw [h]) else isFalse (by intro e; cases e; exact h rfl)
+  | .error .logic, .error .logic => isTrue rfl
+  | .ok _, .error _ => isFalse (by intro e; cases e)
+  | .error _, .ok _ => isFalse (by intro e; cases e)
+
 @[simp] theorem failed_error {α : Type} (e : LogicError) : failed (Except.error e : Res α) = true := rfl
 @[simp] theorem failed_ok {α : Type} (x : α) : failed (Except.ok x : Res α) = false := rfl
 
@@ -155,7 +162,7 @@ theorem get_build (n : Nat) (xs : List α) (p : Nat) :
         | none => .error .logic := by
   simp only [view, RefSeq.view, RefSeq.get, rep_build]
   by_cases h : p < n
-  · simp [h, List.getElem?_append_left, List.getElem?_replicate]
+  · simp [h, List.getElem?_append_left]
   · simp only [h, if_false]
     rw [List.getElem?_append_right (by simp; omega)]
     simp only [List.length_replicate, List.getElem?_map]
@@ -252,5 +259,120 @@ theorem optionalGet_failed_iff {α : Type} (o : Option α) : failed (optionalGet
   cases o <;> simp [optionalGet]
 
 theorem optionalGet_some {α : Type} (x : α) : optionalGet (some x) = .ok x := rfl
+
+/-! ### The uniform specification: every implementation is positional access into a list of slots -/
+section Meets
+variable {α τ : Type}
+
+/-- Specification of positional access on a list of slots: `some x` holds an element, `none` was never filled. -/
+def slotGet (slots : List (Option α)) (i : Nat) : Res α :=
+  match slots[i]? with
+  | none => .error .logic
+  | some none => .error .logic
+  | some (some x) => .ok x
+
+/-- A `Sequence<T>` implementation *meets* a slot list when `size()` is its length and `get(i)` is positional access
+    into it, refused outside and on a slot never filled. -/
+structure View.Meets (v : View α) (slots : List (Option α)) : Prop where
+  size_eq : v.size = slots.length
+  get_eq : ∀ i, v.get i = slotGet slots i
+
+theorem slotGet_failed_iff (slots : List (Option α)) (i : Nat) :
+    failed (slotGet slots i) = true ↔ slots.length ≤ i ∨ slots[i]? = some none := by
+  unfold slotGet
+  cases h : slots[i]? with
+  | none => have := List.getElem?_eq_none_iff.mp h; simp [this]
+  | some o =>
+    have hlt : i < slots.length := (List.getElem?_eq_some_iff.mp h).1
+    cases o with
+    | none => simp
+    | some x => simp; omega
+
+theorem slotGet_ok_iff (slots : List (Option α)) (i : Nat) (x : α) :
+    slotGet slots i = .ok x ↔ slots[i]? = some (some x) := by
+  unfold slotGet
+  cases h : slots[i]? with
+  | none => simp
+  | some o => cases o <;> simp
+
+theorem slotGet_map_some (xs : List α) (i : Nat) :
+    slotGet (xs.map some) i = match xs[i]? with | some x => .ok x | none => .error .logic := by
+  unfold slotGet
+  simp only [List.getElem?_map]
+  cases xs[i]? <;> rfl
+
+theorem RefSeq.meets (s : RefSeq α) : s.view.Meets s.slots := ⟨rfl, fun _ => rfl⟩
+
+theorem Warehouse.meets (n : Nat) (xs : List α) :
+    (Warehouse.build n xs).view.Meets (List.replicate n none ++ xs.map some) := by
+  refine ⟨by simp, fun i => ?_⟩
+  show (Warehouse.build n xs).rep.get i = _
+  unfold RefSeq.get slotGet
+  rw [Warehouse.rep_build]
+  rfl
+
+theorem ObjSeq.meets (s : ObjSeq α) : s.view.Meets (s.items.map some) := by
+  refine ⟨by simp [ObjSeq.view, ObjSeq.size], fun i => ?_⟩
+  show s.get i = _
+  rw [slotGet_map_some]
+  unfold ObjSeq.get
+  by_cases h : i < s.items.length
+  · simp [h]
+  · simp [h]
+
+theorem ObjList.meets (s : ObjList α) : s.view.Meets (s.items.map some) := by
+  refine ⟨by simp [ObjList.view, ObjList.size], fun i => ?_⟩
+  show s.get i = _
+  rw [slotGet_map_some]
+  by_cases h : i < s.size
+  · rw [ObjList.get_in_range s i h]
+    have : s.items[i]? = some (s.items[i]'h) := List.getElem?_eq_getElem h
+    simp [this]
+  · have hf := (ObjList.get_failed_iff s i).mpr (Nat.le_of_not_lt h)
+    rw [(failed_iff_error _).mp hf]
+    have : s.items[i]? = none := List.getElem?_eq_none (Nat.le_of_not_lt h)
+    simp [this]
+
+theorem emptySeq_meets : (emptySeq α).Meets [] := ⟨rfl, fun i => by simp [emptySeq, slotGet]⟩
+
+theorem SingletonObj.meets (s : SingletonObj α) : s.view.Meets [some s.item] := by
+  refine ⟨rfl, fun i => ?_⟩
+  show s.get i = _
+  unfold SingletonObj.get slotGet
+  cases i <;> simp
+
+theorem SingletonRef.meets (s : SingletonRef α) : s.view.Meets [some s.datum] := by
+  refine ⟨rfl, fun i => ?_⟩
+  show s.get i = _
+  unfold SingletonRef.get slotGet
+  cases i <;> simp
+
+/-- Slot of the type sequence over a member slot: empty when the member slot is, or when the member's `type()` raises. -/
+def typedSlot (typeOf : α → Res τ) (o : Option α) : Option τ := o.bind (fun x => (typeOf x).toOption)
+
+theorem TypedSeq.meets (t : TypedSeq α τ) (slots : List (Option α)) (h : t.seq.Meets slots) :
+    t.view.Meets (slots.map (typedSlot t.typeOf)) := by
+  refine ⟨by simp [TypedSeq.view, TypedSeq.size, h.size_eq], fun i => ?_⟩
+  show t.get i = _
+  unfold TypedSeq.get
+  rw [h.get_eq i]
+  unfold slotGet
+  simp only [List.getElem?_map]
+  cases hs : slots[i]? with
+  | none => simp [bind, Except.bind]
+  | some o =>
+    cases o with
+    | none => simp [bind, Except.bind, typedSlot]
+    | some x =>
+      simp only [bind, Except.bind, Option.map_some, typedSlot, Option.bind_some]
+      cases hx : t.typeOf x with
+      | error e => cases e; simp [Except.toOption]
+      | ok y => simp [Except.toOption]
+
+theorem HomScope.meets (h : HomScope α τ) (slots : List (Option α)) (hm : h.decls.seq.Meets slots) :
+    h.view.Meets slots ∧ h.type.Meets (slots.map (typedSlot h.decls.typeOf)) :=
+  ⟨⟨hm.size_eq, hm.get_eq⟩, TypedSeq.meets h.decls slots hm⟩
+
+end Meets
 
 end Ipr.Seq
